@@ -140,7 +140,7 @@ PROPS["C01"] = {
 }
 PROPS["C02"] = {
     "modules": ["C02", "C02b"],
-    "families": ["OF"], "ops": "api,apix,enc,prog", "gen_deps": [],
+    "families": ["OF"], "ops": "api,apix,enc,prog,rtparse,rtw", "gen_deps": [],
     "rule": ENC_RULE, "trivial_outputs": ["panic", "err"],
     "level_text": "Kernel-checked (Props/C02.lean + C02b.lean, 153 theorems): every message / action / Nicira subtype / instruction / OXM class / vendor code regenerated from the Go constants equals the specification's; rounded sizes are the least multiple of 8; Match.AddField invariant for any history; and per element kind — 7 standard actions, set-field, 16 Nicira actions incl. conntrack with nested actions, NAT with its range setters, learn and its specs, note, reg_load2; OXM fields of all 30 payload kinds masked or not; match; instructions; bucket; hello element; TLV map; bundle property — X_wire (type / length / vendor / subtype words at offsets 0/2/4/8, bytes written), X_ok (declared length = occupied bytes, multiple of 8, padding zero, specification codes) for well-formed values and X_new_wf (each constructor and setter establishes well-formedness); through the Action / Instruction interfaces for all 23 kinds (Declares); WALK theorems: a receiver using only declared lengths visits exactly the element encodings and ends at the last byte, for apply-actions, buckets, conntrack and whole flow-mods. Proved counterexamples for what no constructor builds (4-byte header-only actions, InstrMeter, tun_metadata above 124 bytes, hello element with an even number of bitmaps). Oracle: an independent receiver written only from the wire grammar (Spec.walk: declared lengths, alignment, zero padding, legal codes and widths, ends exactly at the end) walks the implementation's bytes of every API-built message / element and must visit exactly the elements the value holds, in order.",
     "level_note": OF_NOTE,
@@ -201,7 +201,7 @@ PROPS["C09"] = {
 
 PROPS["C07"] = {
     "families": ["OF"], "ops": "parse,sw,dec", "gen_deps": [],
-    "rule": DEC_RULE + " For C07: every frame goes through openflow13.Parse (about 13 000 frames at the quick tier: wire images of every message kind incl. packet-in with every payload decoder, vendor and bundle messages, multipart replies; every truncation, corruption of type/length/count bytes, declared lengths 0 and 0xffff, spare capacity; flow-mods with conntrack actions nested 9..200 deep (..2700 at the thorough tier); packet-ins carrying IPv6 with every next-header value 0..255, directly and after a hop-by-hop header, with and without bytes after the last header). A Parse call that does not return within 1.5 s counts as non-termination, a recovered panic is an error.",
+    "rule": DEC_RULE + " For C07: every frame goes through openflow13.Parse (about 13 000 frames at the quick tier: wire images of every message kind incl. packet-in with every payload decoder, vendor and bundle messages, multipart replies; every truncation, corruption of type/length/count bytes, declared lengths 0 and 0xffff, spare capacity; flow-mods with conntrack actions nested 9..200 deep (..700 at the thorough tier); packet-ins carrying IPv6 with every next-header value 0..255, directly and after a hop-by-hop header, with and without bytes after the last header). A Parse call that does not return within 3 s counts as non-termination, a recovered panic is an error.",
     "trivial_outputs": ["err", "panic", "spin", "-"],
     "level_text": "Kernel-checked: C07_parse_no_panic (for every depth and slice, unconditional) and C07_parse_total : for EVERY well-formed slice (len <= cap, no bound on either) Parse returns a message or an error — proved decoder by decoder: every loop of every decoder reachable from Parse (hello elements, match fields, action lists at every conntrack nesting depth, learn specs, instructions, flow-stats records, multipart records, TLV maps, bundle properties and the nested Parse, packet-in -> Ethernet via the C08 theorems) advances its cursor on every successful iteration within fuel linear in the input. The failed attempts to prove it without bounds produced three concrete non-terminating inputs (hello > 65535 bytes; a 65535-byte flow-stats reply; a 65545-byte bundle-add), each replayed on the library, repaired (b558ac9, 48a6ffe, f8f0b2c) and kept as corpus witnesses. Oracle on the implementation: no generated frame makes Parse panic or exceed its time budget.",
     "level_note": OF_NOTE + " 'Time and memory proportional to the input' is proved as: no panic, no non-termination, loop fuel linear in the slice capacity; the model has no finer cost notion.",
@@ -209,7 +209,7 @@ PROPS["C07"] = {
 }
 
 PROPS["C13"] = {
-    "families": ["OF"], "ops": "rep,repx,embed", "gen_deps": [], "modules": ["C13", "C13b"],
+    "families": ["OF"], "ops": "rep,repx,embed,repvia", "gen_deps": [], "modules": ["C13", "C13b"],
     "rule": "rep: on every API-built value (every kind; valid histories) one of 14 scripts of Len() / MarshalBinary() calls (L, M, LL, MM, LM, ML, LML, MLM, LLMM, MMLL, LMLMLMLM, MMMM, LLLL, MLLM); every Len() in a script must give the same "
             "number, every MarshalBinary() the same bytes, and the dump afterwards is compared with the model; repx: the same scripts on arbitrary literal values (correspondence only). Non-trivial = the encoder produced bytes.",
     "trivial_outputs": ["err", "panic", "Merr", "-"],
@@ -230,7 +230,7 @@ PROPS["C05"] = {
 }
 
 PROPS["C04"] = {
-    "families": ["OF"], "ops": "sw,parse,rtw", "gen_deps": [], "modules": ["C04", "C04b"],
+    "families": ["OF"], "ops": "sw,parse,rtw,scribble", "gen_deps": [], "modules": ["C04", "C04b", "C04c"],
     "rule": "sw: an INDEPENDENT encoder of switch-sent messages written from the OpenFlow 1.3 / Nicira / ONF-bundle specifications with a plain byte builder (harness/cmd/ofvrun/of_switch.go; no encoder of the library is used) produces 20 kinds: hello with version bitmaps, "
             "error, experimenter error, echo without and with payload, features reply, get-config reply, packet-in (random OXM matches of 18 field kinds with and without masks; Ethernet frames tagged/untagged carrying IPv4/ICMP with all sub-byte fields, IPv4/UDP, ARP, IPv6 with hop-by-hop and "
             "fragment headers and ICMPv6/UDP, unknown ethertype), flow-removed, port-status, multipart replies (description, flow stats with matches and instruction/action lists, aggregate, table, port, queue, port descriptions), barrier reply, Nicira TLV-table reply, ONF bundle-control reply — "
